@@ -26,7 +26,7 @@ LEVEL_NOTE = ("Trusted: Coq kernel, Go harness + Python glue. Modelled, not veri
               "value's address walker (no buffering of its own in this tree), so the same histories cover it.")
 THEOREMS = ["closed_preserved", "root_reachable_present", "rejected_commit_noop", "rejected_put_noop", "cache_sound", "closed_preserved_with_table_files_refuted"]
 REFUTED = ["closed_preserved_with_table_files_refuted"]
-RULE = ("histories of 4-16 events on one NomsBlockStore handle with memtable capacity 8-40 bytes: puts of chunks of 6-9 bytes whose declared children "
+RULE = ("histories of 4-16 events on one NomsBlockStore handle with memtable capacity 10-200 bytes: puts of chunks of 6-9 bytes whose declared children "
         "are written before / after / never, commits with the current or a stale |last|, rebases, peer commits (closed or dangling), table-file "
         "additions (closed, or with a missing child) on an initialised store; non-trivial = at least one successful commit; distinct by content")
 ASSUMPTIONS = ["table files are added only after the store has a non-empty root (on an uninitialised store the reference check is skipped: finding '%s'; "
@@ -61,7 +61,7 @@ def match_known(finding, case, out):
 
 
 def gen_case(rng):
-    cap = rng.choice([8, 10, 14, 18, 24, 40, 40, 200])
+    cap = rng.choice([10, 12, 14, 18, 24, 40, 40, 200])   # every chunk (6-9 bytes) fits an empty memtable
     n = rng.randint(3, 9)
     specs = {}
     for i in range(1, n + 1):
@@ -114,7 +114,7 @@ def gen_case(rng):
 
 
 def gen_cases(rng, tier):
-    n = 330 if tier == "quick" else 15000
+    n = 240 if tier == "quick" else 15000
     cases = [gen_case(rng) for _ in range(n)]
     if known_open():
         cases.append(WITNESS)
